@@ -57,8 +57,8 @@ def tla_set(xs):
     return "{" + ", ".join(('"%s"' % x) if isinstance(x, str) else str(x) for x in xs) + "}"
 
 
-def mc_cfg(design, items, lens, seconds, lays, invariants, full=False, announce=True):
-    out = ["CONSTANTS", " ShortBits = 5", " LongBits = 8", ' Design = "%s"' % design,
+def mc_cfg(design, items, lens, seconds, lays, invariants, full=False, announce=True, orders=("append", "inplace")):
+    out = ["CONSTANTS", " ShortBits = 5", " LongBits = 8", ' Design = "%s"' % design, " Orders = %s" % tla_set(orders),
            " Announce = %s" % ("TRUE" if announce else "FALSE"), " Items = %s" % tla_set(items),
            " CodeLens = %s" % tla_set(lens), " Seconds = %s" % tla_set(seconds), " LayoutIds = %s" % tla_set(lays),
            " FullProduct = %s" % ("TRUE" if full else "FALSE"), "INIT MCInit", "NEXT MCNext", "CHECK_DEADLOCK TRUE"]
@@ -91,18 +91,21 @@ def model_check(ctx):
     of ppci's own choice lists the clauses it violates per job (no TLC error: error traces cost a second each)."""
     thorough = ctx.tier == "thorough"
     inv = list(CLAUSES) + ["Placement", "NoOverlap", "Inside", "RelocsResolve", "InDomain", "FixedIsLegal"]
+    A = ("append",)
     if thorough:
-        runs = [("legal", ("Jt", "Lt", "Xt", "N", "Jf", "Bt"), (1, 2, 3), ("none", "nop", "jump"), (1, 2, 3, 4), False),
-                ("legal", ("Jt", "Xt", "N"), (2,), ("none",), (2, 3), True),
-                ("fixed", ("Jt", "Lt", "Xt", "N", "Jf", "Bt", "W"), (1, 2, 3), ("none", "nop", "jump"), (1, 2, 3, 4), False),
-                ("ppci", ("Jt", "Lt", "Xt", "N", "Jf", "Bt"), (1, 2, 3), ("none", "jump"), (1, 2, 3, 4), False)]
+        runs = [("legal", ("Jt", "Lt", "Xt", "N", "Jf"), (1, 2, 3), ("none", "jump"), (2, 3), False, A),
+                ("legal", ("Jt", "Xt", "N", "Jf"), (2, 3), ("none", "nop"), (1, 4), False, ("append", "inplace")),
+                ("legal", ("Jt", "Xt", "N"), (2,), ("none",), (2, 3), True, A),
+                ("fixed", ("Jt", "Lt", "Xt", "N", "Jf", "Bt", "W"), (2, 3), ("none", "jump"), (1, 2, 3, 4), False, A),
+                ("ppci", ("Jt", "Lt", "Xt", "N", "Jf", "Bt"), (1, 2, 3), ("none", "jump"), (1, 2, 3, 4), False, A)]
     else:
-        runs = [("legal", ("Jt", "Lt", "Xt", "N", "Jf"), (1, 2), ("none", "jump"), (1, 2, 3), False),
-                ("ppci", ("Jt", "Xt", "N", "Jf"), (1, 2), ("none",), (2, 3), False)]
+        runs = [("legal", ("Jt", "Lt", "Xt", "N", "Jf"), (1, 2), ("none", "jump"), (1, 2, 3), False, ("append", "inplace")),
+                ("ppci", ("Jt", "Xt", "N", "Jf"), (1, 2), ("none",), (2, 3), False, A)]
     covered = {}
     cex = {}
-    for design, items, lens, seconds, lays, full in runs:
-        res = ctx.tlc("Relax_MC", mc_cfg(design, items, lens, seconds, lays, inv if design != "ppci" else ["InDomain"], full=full),
+    for design, items, lens, seconds, lays, full, orders in runs:
+        res = ctx.tlc("Relax_MC", mc_cfg(design, items, lens, seconds, lays, inv if design != "ppci" else ["InDomain"], full=full,
+                                         orders=orders),
                       label="M: %s relaxations" % design, workers=8, extra_modules={"LinkerJobs": MC_JOBS}, timeout=3000,
                       coverage=False)
         for e in res.errors:
